@@ -16,6 +16,7 @@ EXPLANATION = ("(R20.3) the wake decision taken when a suspended send_with_async
 EXPLANATION += " (R20.5) C04's wake-site rules R04.3 / R04.5 / R04.6 / R04.7 run under this property (events accepted while a setter is suspended are delivered without waiting for it: a wake that is skipped or deferred while another producer's async setter is in flight is reported; C04's own listed findings are not repeated); (R20.6) producers do not wait for each other: no producer-side channel function (send, send_with, send_with_async, reserve_slot, try_send_reserved, try_cancel_slot_reserve, send_derived) contains a loop that spins / yields / sleeps or polls an atomic, with the queue-full retry of the three Arc-based Multi send_derived as listed exemption; (R20.7) the rings give up on the false answer of the full / empty callback (shared with C16 R16.4)."
 EXPLANATION += " R20.6 also covers the zero-copy containers and the pool (no loop that waits for a slot to come back); (R20.8) the rings' length queries count published elements only (shared with C02 R02.2): a reservation parked in a suspended setter must not keep pending_items_count() > 0, or an unbounded flush / close never returns."
 EXPLANATION += " R20.6 includes the crossbeam setter-send retry rule (the async re-send yields, never spins inside a poll); R20.8 also requires the channels' pending_items_count to be the backlog and nothing else (C06 R06.6)."
+EXPLANATION += " R20.8 also requires every flush of the close path to get the caller's timeout unchanged (C06 R06.1)."
 ASSUMPTIONS = ["spin-waits exist only on the role-table resources (ogre_sync locks, RawMutex, AtomicMove reservation counters, mmap log tail)",
                "dropping (cancelling) a suspended send_with_async future is outside C20's statement"]
 TRUSTED = ["typestate primitives in roles.py"]
